@@ -133,3 +133,73 @@ func (fc *FnCtx) keyWith(st *State, m Term, mapTy types.Type, field string, v Te
 	te.G.AddAxiom(name+".def", ax, name)
 	return app(ks, name, Select(fc.heapGet(st, vh), m), Select(fc.heapGet(st, dh), m), v), mt.Key()
 }
+
+// spawn: "go f(...)". The goroutine's body is not executed here (there is no thread model);
+// what is recorded is that a function under contract was started, with which captured
+// variables - its preconditions are obligations at the spawn point - so that a parent's
+// contract can say which goroutines it starts (spec: spawned("<contract key>")).
+func spawnedVar(pkgPath, key string) HeapVar {
+	return HeapVar{"$spawned." + sanitize(pkgPath+"."+key), SBool, HGhost}
+}
+
+func (fc *FnCtx) spawn(st *State, x *ssa.Go) {
+	c := x.Common()
+	var fn *ssa.Function
+	var bindings []ssa.Value
+	switch v := c.Value.(type) {
+	case *ssa.MakeClosure:
+		fn, _ = v.Fn.(*ssa.Function)
+		bindings = v.Bindings
+	case *ssa.Function:
+		fn = v
+	}
+	if fn == nil {
+		return
+	}
+	ct := fc.E.contractFor(fn)
+	if ct == nil {
+		return
+	}
+	hv := spawnedVar(ct.PkgPath, strings.TrimPrefix(ct.Key, ct.PkgPath+"."))
+	fc.heapSet(st, hv, TTrue)
+	env := fc.specEnv(st)
+	env.PkgPath = ct.PkgPath
+	env.Vars = map[string]TVal{}
+	env.Macros = map[string]SExpr{}
+	env.AtBlock = nil
+	for _, l := range ct.Lets {
+		env.Macros[l.Name] = l.Expr
+	}
+	for i, p := range fn.Params {
+		if i < len(c.Args) {
+			env.Vars[p.Name()] = TVal{T: fc.val(c.Args[i]).T, Ty: p.Type()}
+		}
+	}
+	for i, fv := range fn.FreeVars {
+		if i >= len(bindings) {
+			break
+		}
+		b := fc.val(bindings[i])
+		if pt, ok := fv.Type().Underlying().(*types.Pointer); ok && !isStruct(pt.Elem()) {
+			// captured by reference: the contract names the variable by its content
+			var content Term
+			if b.P != nil {
+				content = fc.loadPtr(st, b.P)
+			} else {
+				content = Select(fc.heapGet(st, fc.TE.CellHeap(pt.Elem())), b.T)
+			}
+			env.Vars[fv.Name()] = TVal{T: content, Ty: pt.Elem()}
+		} else {
+			env.Vars[fv.Name()] = TVal{T: b.T, Ty: fv.Type(), P: b.P}
+		}
+	}
+	site := siteOf(fc, x)
+	for _, cl := range ct.Requires {
+		if strings.HasPrefix(cl.Label, "env-") || cl.Label == "fresh-step" {
+			continue
+		}
+		t := fc.evalClause(env, cl)
+		fc.oblige(st, "spawn.requires", ct.Key+"."+cl.Label, site, t, cl.Src)
+	}
+	fc.notes.Assumed["goroutine "+ct.Key+" started at "+site+": its body is verified separately against its contract, interleaving is not modelled"] = true
+}
